@@ -52,6 +52,7 @@ def plan(tier, seed):
                     units.append({'kind': 'case', 'proto': proto, 'role': 'client-verifies-server', 'defect': d, 'rep': rep,
                                   'weight': 2})
         units.append({'kind': 'hostile13', 'variants': HOSTILE13, 'rep': rep, 'weight': 4})
+        units.append({'kind': 'hostile13-server', 'variants': HOSTILE13_SERVER, 'rep': rep, 'weight': 4})
     return units
 
 
@@ -434,5 +435,126 @@ def u_hostile13(ctx, u):
     cli_ctx.free()
 
 
+HOSTILE13_SERVER = ['honest', 'no-certificate-verify', 'certificate-verify-with-other-key', 'certificate-verify-garbage',
+                    'certificate-verify-other-scheme-valid-signature', 'certificate-verify-other-scheme-garbage',
+                    'certificate-verify-over-other-transcript', 'no-certificate-no-verify', 'empty-certificate-list',
+                    'finished-first', 'certificate-twice', 'foreign-chain-own-key', 'certificate-verify-before-certificate',
+                    'client-context-string-in-server-signature']
+
+
+def u_hostile13_server(ctx, u):
+    """The verifier is the library's TLS 1.3 client with trust anchors; the server is the Python peer."""
+    import socket
+    import threading
+    from .. import hostile13 as HS
+    rng = ctx.rng
+    tag = 'c09hs-%d' % u['_i']
+    uu = {'proto': 'tls13', 'role': 'client-verifies-server'}
+    creds, hooks, mutual = scenario(ctx, uu, None, tag)
+    s_chain, s_priv, _ = build_chain(tag + '-s', None, leaf_cn='server')
+    try:
+        srv_ctx, cli_ctx = T.pair_ctx(ctx, creds, T.TLS13, False)
+    except AssertionError as e:
+        ctx.check(False, 'control:honest-scenario-failed:tls13:client-verifies-server', error=str(e))
+        return
+    base = T.run_handshake(ctx, srv_ctx, cli_ctx, seed=rng.randrange(1, 1 << 30), use_proxy=True)
+    ok = base['server'].ret == 1 and base['client'].ret == 1
+    sh = [r for i, d, r in base['proxy'].records if d == 's>c' and r[0] == T.REC_HANDSHAKE and r[5] == 2]
+    T.close_pair(base)
+    if not ctx.check(ok and sh, 'control:honest-scenario-failed:tls13:client-verifies-server', note='library client against library server'):
+        return
+    f_chain, f_priv, _ = build_chain(tag + '-foreign', None, leaf_cn='server')
+    other_priv = X.priv_from_seed(tag, 'attacker-key')
+    for variant in u['variants']:
+        c_end, s_end = socket.socketpair()
+        cli = T.Endpoint(ctx, cli_ctx, c_end, 'c', rng.randrange(1, 1 << 30), False)
+        th = threading.Thread(target=cli.handshake)
+        th.start()
+        sv = HS.Server(s_end, sh[0], rng.randrange(1, R.N - 1), rng.randbytes(32))
+        note = None
+        client_finished_ok = None
+        try:
+            ctx.begin(['hostile13-server', variant])
+            if not sv.start():
+                note = '; '.join(sv.log)
+            else:
+                ee = HS.hs_msg(8, b'\x00\x00')
+                cert = HS.certificate_msg(s_chain)
+                k = rng.randrange(1, R.N - 1)
+                sv.send_hs(ee)
+                if variant == 'honest':
+                    sv.send_hs(cert)
+                    sv.send_hs(HS.server_certificate_verify_msg(s_priv, sv.transcript, k=k))
+                elif variant == 'no-certificate-verify':
+                    sv.send_hs(cert)
+                elif variant == 'certificate-verify-with-other-key':
+                    sv.send_hs(cert)
+                    sv.send_hs(HS.server_certificate_verify_msg(other_priv, sv.transcript, k=k))
+                elif variant == 'certificate-verify-garbage':
+                    sv.send_hs(cert)
+                    sv.send_hs(HS.server_certificate_verify_msg(None, sv.transcript, garbage=rng.randbytes(71)))
+                elif variant == 'certificate-verify-other-scheme-valid-signature':
+                    sv.send_hs(cert)
+                    sv.send_hs(HS.server_certificate_verify_msg(other_priv, sv.transcript, scheme=rng.choice([0x0403, 0x0807, 0x0804, 0x0201]), k=k))
+                elif variant == 'certificate-verify-other-scheme-garbage':
+                    sv.send_hs(cert)
+                    sv.send_hs(HS.server_certificate_verify_msg(None, sv.transcript, scheme=rng.choice([0x0403, 0x0807, 0x0000, 0xffff]),
+                                                                garbage=rng.randbytes(rng.choice([0, 1, 64, 72]))))
+                elif variant == 'certificate-verify-over-other-transcript':
+                    sv.send_hs(cert)
+                    sv.send_hs(HS.server_certificate_verify_msg(s_priv, sv.transcript[:-1], k=k))
+                elif variant == 'no-certificate-no-verify':
+                    pass
+                elif variant == 'empty-certificate-list':
+                    sv.send_hs(HS.hs_msg(11, b'\x00\x00\x00\x00'))
+                elif variant == 'finished-first':
+                    sv.send_hs(sv.finished_msg())
+                    sv.send_hs(cert)
+                    sv.send_hs(HS.server_certificate_verify_msg(other_priv, sv.transcript, k=k))
+                elif variant == 'certificate-twice':
+                    sv.send_hs(cert)
+                    sv.send_hs(cert)
+                elif variant == 'foreign-chain-own-key':
+                    sv.send_hs(HS.certificate_msg(f_chain))
+                    sv.send_hs(HS.server_certificate_verify_msg(f_priv, sv.transcript, k=k))
+                elif variant == 'certificate-verify-before-certificate':
+                    sv.send_hs(HS.server_certificate_verify_msg(s_priv, sv.transcript, k=k))
+                    sv.send_hs(cert)
+                elif variant == 'client-context-string-in-server-signature':
+                    sv.send_hs(cert)
+                    sv.send_hs(HS.certificate_verify_msg(s_priv, sv.transcript, k=k))      # signed over the *client* context string
+                sv.send_hs(sv.finished_msg())
+                client_finished_ok = sv.read_client_finished()
+        except (OSError, ValueError) as e:
+            note = 'peer: %s' % e
+        th.join(20)
+        if th.is_alive():
+            try:
+                s_end.shutdown(socket.SHUT_RDWR)
+            except OSError:
+                pass
+            th.join(10)
+            ctx.stat('hostile13_client_waited_until_close')
+        det = dict(proto='tls13', role='client-verifies-server', variant=variant, note=note, client_finished_verifies=client_finished_ok)
+        if variant == 'honest':
+            ctx.check(cli.ret == 1 and note is None and client_finished_ok, 'control:python-peer-honest-handshake-failed:tls13:as-server', client_ret=cli.ret, **det)
+            ctx.nontrivial('hostile13-server', 'honest', u.get('rep'))
+        else:
+            ctx.check(cli.ret != 1, 'auth-bypass:hostile-server:%s:tls13:client-verifies-server' % variant, client_ret=cli.ret, **det)
+            ctx.nontrivial('hostile13-server', variant, u.get('rep'))
+            ctx.stat('defect_cases')
+            if note is None:
+                ctx.stat('hostile13_variants_delivered')
+        for sk in (c_end, s_end):
+            try:
+                sk.close()
+            except OSError:
+                pass
+        cli.conn.free()
+    ctx.sample({'kind': 'hostile13-server', 'variants': len(u['variants'])})
+    srv_ctx.free()
+    cli_ctx.free()
+
+
 def run_unit(ctx, u):
-    {'case': u_case, 'hostile13': u_hostile13}[u['kind']](ctx, u)
+    {'case': u_case, 'hostile13': u_hostile13, 'hostile13-server': u_hostile13_server}[u['kind']](ctx, u)
